@@ -250,7 +250,7 @@ def judge(ctx, elems_desc, elems, res, case, model_line):
     ok = len(res['received']) == len(elems) and all(same(a, b) for a, b in zip(res['received'], elems))
     if not ok or not res['receiver_ended'] or not res['sender_returned']:
         ctx.fail('network-stream-not-delivered', 'sent %s, received %d elements (%s), receiver ended=%s, sender returned=%s' % (
-            elems_desc, len(res['received']), [repr(x)[:20] for x in res['received']], res['receiver_ended'], res['sender_returned']), case)
+            elems_desc, len(res['received']), [show(x)[:20] for x in res['received']], res['receiver_ended'], res['sender_returned']), case)
         return
     draws = reqs = 0
     for e in ev:
@@ -270,6 +270,13 @@ def judge(ctx, elems_desc, elems, res, case, model_line):
             ctx.disagree('network-final-state-equals-model', case, 'delivered %d' % len(elems), model_line[:300])
 
 
+def show(x):
+    try:
+        return repr(x)
+    except Exception:  # noqa
+        return '<unprintable %s>' % type(x).__name__
+
+
 @dataclasses.dataclass
 class Reading:
     """a class of the running program (when the check runs, this module is __main__): instances arrive as instances of THIS class"""
@@ -282,7 +289,7 @@ class Colour(enum.Enum):
     BLUE = 2
 
 
-ELEMS = [Reading(3, 2.5), Colour.BLUE, Reading,
+ELEMS = [Reading(3, 2.5), Colour.BLUE, Reading, pipelib.Sulky(4),
          None, (None, None), (0, None), (None, 1), 0, '', [], b'next', ('u', 1), {'status': None}, 1.5, [None], False,
          # exception OBJECTS are ordinary elements (results collected with return_exceptions-style code): handed on, never raised
          ValueError('as an element'), KeyError(1), OSError(2, 'msg'), StopIteration('as an element')]
@@ -304,7 +311,7 @@ def check(ctx):
         bias = rng.choice([0.5, 0.1, 0.9])
         chooser = lambda cand, s, rng=rng, bias=bias: (cand[0] if rng.random() < bias else cand[-1])  # noqa
         res = run_once(elems, chooser, reuse)
-        case = dict(elements=[repr(e) for e in elems], schedule='random', trace=' '.join(res['events']), producer_reuses_one_object=reuse)
+        case = dict(elements=[show(e) for e in elems], schedule='random', trace=' '.join(res['events']), producer_reuses_one_object=reuse)
         runs.append((case, elems, res, n >= 2 and (reuse or any(e is None or (isinstance(e, tuple) and e == (None, None)) for e in elems))))
         lines.append('net.trace %d | %s' % (n, ' '.join(res['events'])))
     # every interleaving for small n (stateless DFS over the scheduler's choices)
@@ -328,7 +335,7 @@ def check(ctx):
             for k in range(len(prefix), len(taken)):
                 for alt in range(1, taken[k][1]):
                     stack.append([t[0] for t in taken[:k]] + [alt])
-            case = dict(elements=[repr(e) for e in elems], schedule='enumerated', trace=' '.join(res['events']))
+            case = dict(elements=[show(e) for e in elems], schedule='enumerated', trace=' '.join(res['events']))
             runs.append((case, elems, res, n >= 2))
             lines.append('net.trace %d | %s' % (n, ' '.join(res['events'])))
         exhaustive += seen
